@@ -25,7 +25,12 @@ pub fn check_value(sess: &mut dyn Driver, p: &Pos, d: u32, rep: &mut Report, wit
     let _ = with_position;
     let out = match search(sess, Some((&Some(fen.clone()), &[])), &GoSpec::depth(d as u64)) {
         Ok(o) => o,
-        Err(e) if e == "watchdog" => { rep.inconclusive("watchdog fired"); return; }
+        Err(e) if e.starts_with("watchdog") => {
+            rep.inconclusive("watchdog fired");
+            let v = rep.extra.entry("watchdog_cases".into()).or_insert_with(|| json!([]));
+            if let Some(a) = v.as_array_mut() { a.push(json!({"fen": fen, "depth": d, "what": e})); }
+            return;
+        }
         Err(e) => { rep.violation("search-failed", format!("go depth {} on {}: {}", d, fen, e), replay); return; }
     };
     rep.eval();
@@ -90,7 +95,7 @@ pub fn check_forced_mate(sess: &mut dyn Driver, p: &Pos, rep: &mut Report) -> bo
     let replay = json!({"kind":"c08-mate","fen":fen,"mate_in":n});
     let out = match search(sess, Some((&Some(fen.clone()), &[])), &GoSpec::depth(d as u64)) {
         Ok(o) => o,
-        Err(e) if e == "watchdog" => { rep.inconclusive("watchdog fired"); return true; }
+        Err(e) if e.starts_with("watchdog") => { rep.inconclusive("watchdog fired"); return true; }
         Err(e) => { rep.violation("search-failed", format!("go depth {} on {}: {}", d, fen, e), replay); return true; }
     };
     rep.eval();
@@ -109,6 +114,44 @@ pub fn check_forced_mate(sess: &mut dyn Driver, p: &Pos, rep: &mut Report) -> bo
         other => rep.violation("bestmove-missing-or-illegal", format!("{}: {:?} {:?}", fen, out.best, other), replay.clone()),
     }
     check_mate_pv(p, &out, rep, &replay);
+    true
+}
+
+/// "irrespective of what was searched before on the same engine instance": first a game fragment is
+/// replayed on the instance whose plies coincide with the plies the later search will walk (the
+/// position P and its successors occur twice, at the same ply indices and parity), then P is given as
+/// a bare FEN with a half-move clock that reaches back over those plies. Nothing of the earlier
+/// command may count as history: the value must still be the exact minimax value.
+pub fn check_after_earlier_game(sess: &mut dyn Driver, base: &Pos, rng: &mut StdRng, rep: &mut Report) -> bool {
+    let mut p = base.clone();
+    if p.ep.is_some() { return false; }
+    p.half = rng.gen_range(8..=40);
+    p.full = p.full.max(6);
+    let quiet = |q: &Pos| -> Vec<Mv> { q.legal_moves().into_iter().filter(|m| !q.is_capture(*m) && m.promo == 0 && !q.is_castle(*m) && q.b[m.from as usize].abs() != P).collect() };
+    let mut cycle = None;
+    'outer: for a in quiet(&p) {
+        let p1 = p.make(a);
+        for b in quiet(&p1) {
+            let p2 = p1.make(b);
+            let ar = Mv { from: a.to, to: a.from, promo: 0 };
+            if !p2.is_legal(ar) || p2.is_capture(ar) { continue; }
+            let p3 = p2.make(ar);
+            let br = Mv { from: b.to, to: b.from, promo: 0 };
+            if !p3.is_legal(br) || p3.is_capture(br) { continue; }
+            if p3.make(br).key() == p.key() { cycle = Some([a, b, ar, br]); if rng.gen_bool(0.5) { break 'outer; } }
+        }
+    }
+    let cycle = match cycle { Some(c) => c, None => return false };
+    let mut start = p.clone();
+    start.full = p.full - 4;
+    start.half = p.half - 8;
+    let hist: Vec<String> = cycle.iter().chain(cycle.iter()).map(|m| m.uci()).collect();
+    match position_of(&Some(start.to_fen()), &hist) { Some((end, _)) if end == p => {}, _ => return false }
+    if search(sess, Some((&Some(start.to_fen()), &hist)), &GoSpec::depth(1)).is_err() { return false; }
+    if rng.gen_bool(0.5) { let _ = sess.send(&Gui::NewGame); }
+    rep.count("value_searches_after_an_earlier_game_on_the_same_plies");
+    let d = rng.gen_range(1..=3);
+    check_value(sess, &p, d, rep, true);
     true
 }
 
@@ -131,7 +174,13 @@ pub fn run(args: &monlib::Args, rep: &mut Report) {
             }
         }
         let kind = rng.gen_range(0..10);
-        if kind < 6 {
+        if kind < 2 {
+            let s = starts.next(&mut rng);
+            let len = rng.gen_range(0..40);
+            let p = gen::walk(&mut rng, &s, gen::Policy::Shuffle, len).0.pop().unwrap();
+            if p.legal_moves().is_empty() { continue; }
+            if check_after_earlier_game(&mut sess, &p, &mut rng, rep) { done += 1; }
+        } else if kind < 6 {
             // walk positions, clock far from the limit
             let s = starts.next(&mut rng);
             let len = rng.gen_range(0..40);
